@@ -57,6 +57,27 @@ def cases(tier, rng):
             out.append((fn, [s]))
         out.append(("equalsIgnoreCase", [s, s.upper()]))
         out.append(("equalsIgnoreCase", [s, rng.choice(ST)]))
+    # long strings written as concatenations (the evaluator keeps concatenations of >= 100 bytes as ropes): lengths,
+    # offsets and code points must still be counted on the text, whatever its internal shape
+    for _ in range(60 if tier == "quick" else 600):
+        t = "".join(rng.choice(ALPHA + ["é", "漢", "😀", "x", "y"]) for _ in range(rng.randrange(40, 140)))
+        c = S.JCat(t)
+        L = len(t)
+        out.append(("length", [c]))
+        out.append(("stringChars", [c]))
+        out.append(("substr", [c, float(rng.randrange(0, L)), float(rng.randrange(0, 20))]))
+        out.append(("findSubstr", [t[L // 2:L // 2 + 2], c]))
+        out.append(("split", [c, rng.choice([",", "é", "a", "😀"])]))
+        out.append(("strReplace", [c, t[5:7], "Z"]))
+        out.append(("startsWith", [c, t[:3]]))
+        out.append(("endsWith", [c, t[-3:]]))
+        out.append(("asciiUpper", [c]))
+        out.append(("encodeUTF8", [c]))
+        out.append(("md5", [c]))
+        out.append(("codepoint", [S.JCat(t[:1] * 1)]))
+        out.append(("stripChars", [c, "ab "]))
+        out.append(("equalsIgnoreCase", [c, t.upper()]))
+        out.append(("escapeStringJson", [c]))
     # escape functions on strings over the characters each of them treats specially: every string of
     # length <= 2 (each special alone, every ordered pair - a fast path may look for only some of them)
     # plus random longer ones
